@@ -30,6 +30,13 @@ ROOTS = [
     ("a-1", "dash_digit"),
     ("x--5\nrest", "root_with_newline"),
 ]
+# roots of the long-chain phase: contain "--" and digits, but do not END in the chaining suffix "--<n>"
+# (roots ending in "--<n>" are outside the property's quantifier: the library reads them as root + counter)
+CHAIN_ROOTS = [
+    ("ab--7z", "inner_dashes_digit"),
+    ("x--10--y", "inner_chain_suffix"),
+]
+ALL_ROOTS = ROOTS + CHAIN_ROOTS
 # name, initial qty, fill unit
 CFGS = [("lots", 2.0, 1.0), ("frac", 1.0, 0.5),
         # same as "lots", but a Replaced report carries OrderQty / Price only when the replace changed them
@@ -47,11 +54,13 @@ TIERS = {
     "quick": [
         {"name": "wide", "depth": 12, "max_req": 2, "max_inflight": None},
         {"name": "deep", "depth": 18, "max_req": 3, "max_inflight": 3},
+        {"name": "chain", "kind": "chain", "prefix": 3, "ids": 13, "cfgs": (0,)},
     ],
     "thorough": [
         {"name": "wide", "depth": 16, "max_req": 2, "max_inflight": None},
         {"name": "deep4", "depth": 22, "max_req": 3, "max_inflight": 4},
         {"name": "deep", "depth": 26, "max_req": 4, "max_inflight": 3},
+        {"name": "chain", "kind": "chain", "prefix": 4, "ids": 14, "cfgs": (0, 1)},
     ],
 }
 
@@ -509,6 +518,8 @@ def cause_class(n, clause, detail, env):
     shape = env["shape"]
     if clause in ("root", "fresh") and "\n" in env["root"]:
         return "root_with_newline"
+    if clause in ("root", "fresh") and len(n.h.used) >= 9:
+        return "two_digit_counter"  # the order has already drawn nine or more ClOrdIDs
     if clause == "root":
         return "root_shape:" + shape
     if n.h.last_reject:
@@ -550,7 +561,7 @@ def make_violation(n, path, clause, detail, env):
 
 # --------------------------------------------------------------------------- BFS (one worker item)
 def make_env(root_i, cfg_i, pres, item=0, max_inflight=10 ** 6):
-    root, shape = ROOTS[root_i]
+    root, shape = ALL_ROOTS[root_i]
     cname, qty, unit = CFGS[cfg_i]
     env = dict(pres)
     env.update(root=root, shape=shape, cfg=cname, qty=qty, unit=unit, pres=dict(pres), item=item,
@@ -566,6 +577,8 @@ def digest_key(k):
 
 
 def explore(item):
+    if PARAMS["phases"][item[1]].get("kind") == "chain":
+        return explore_chain(item)
     idx, phase_i, root_i, cfg_i = item
     ph = PARAMS["phases"][phase_i]
     env = make_env(root_i, cfg_i, PARAMS["pres"], idx, ph["max_inflight"] or 10 ** 6)
@@ -665,6 +678,144 @@ def explore(item):
             "nontrivial": len(nontrivial), "samples": samples}
 
 
+# --------------------------------------------------------------------------- long ClOrdID chains
+CYCLE_KINDS = ("RA", "RR", "CR", "RAf", "RRf", "CRf")
+SETUP = ("c:new", "x:recv", "x:ack", "c:consume")
+
+
+def cycle_events(kind, e, unit):
+    """One request/answer cycle: replace+Replaced (RA), replace+reject (RR), cancel+cancel-reject (CR);
+    the f flavours put a partial fill between the receipt of the request and its answer (when the order
+    would stay partially filled)."""
+    base = kind[:2]
+    fill = kind.endswith("f") and e.status in ("0", "1") and (e.qty - e.cum) > unit
+    send = "c:cancel" if base == "CR" else ("c:rep_up" if kind == "RAf" else "c:rep_px")
+    ans = "x:accept" if base == "RA" else "x:reject"
+    return [send, "x:recv"] + (["x:fill1"] if fill else []) + [ans, "c:consume"] + (["c:consume"] if fill else [])
+
+
+def explore_chain(item):
+    """Sequences of request/answer cycles on ONE order until it has drawn ph["ids"] ClOrdIDs: every sequence
+    of cycle kinds of length ph["prefix"] (the first kind is fixed by the item), then, from each of them, one
+    continuation per cycle kind (that kind repeated).  Every intermediate state gets the full per-state oracle."""
+    idx, phase_i, root_i, cfg_i, first = item
+    ph = PARAMS["phases"][phase_i]
+    env = make_env(root_i, cfg_i, PARAMS["pres"], idx)
+    stats = {"states": 0, "transitions": 0, "real_calls": 0, "quiescent": 0, "violating_states": 0,
+             "frontier_cut": 0, "req_cap_probes": 0, "max_depth_seen": 0, "chains": 0, "max_ids": 0}
+    viols = {}
+    outcomes = set()
+    seen = set()
+    nontrivial = set()
+    best = [None]
+
+    def judge(n, path):
+        """Assess a node; returns the send children or None when the state violates."""
+        v, sends = assess(n, env)
+        k = digest_key(nkey(n))
+        if k not in seen:
+            seen.add(k)
+            stats["states"] += 1
+        stats["real_calls"] += 2 + len(sends)
+        stats["max_depth_seen"] = max(stats["max_depth_seen"], n.depth)
+        if quiescent(n):
+            stats["quiescent"] += 1
+            outcomes.add((sval(n.o.status), n.e.status, min(n.h.n_req, 4)))
+            nontrivial.add(k)
+        if v:
+            stats["violating_states"] += 1
+            for clause, detail in v:
+                x = make_violation(n, list(path), clause, detail, env)
+                old = viols.get(x["signature"])
+                if old is None:
+                    viols[x["signature"]] = x
+                else:
+                    old["count"] += 1
+            return None
+        return dict(sends)
+
+    def run_cycle(n, sends, path, kind):
+        """Returns (node, sends, path) after the cycle, or None (violation / cycle not available)."""
+        for ev in cycle_events(kind, n.e, env["unit"]):
+            if ev in SEND_EVENTS:
+                child = sends.get(ev)
+                if child is None:
+                    return None
+                v = []
+            else:
+                r = step(n, ev, env)
+                if r is None:
+                    return None
+                child, v = r
+                if ev[0] == "c":
+                    stats["real_calls"] += 1
+            stats["transitions"] += 1
+            path = path + [ev]
+            if child is None or v:
+                stats["violating_states"] += 1
+                pseudo = child or Node(n.o, n.e, n.req, n.rep, n.h, n.ann, n.depth + 1)
+                for clause, detail in v:
+                    x = make_violation(pseudo, list(path), clause, detail, env)
+                    viols.setdefault(x["signature"], x)
+                return None
+            n = child
+            sends = judge(n, path)
+            if sends is None:
+                return None
+        return n, sends, path
+
+    def finish(n, path, kinds):
+        stats["chains"] += 1
+        ids = len(n.h.used)
+        stats["max_ids"] = max(stats["max_ids"], ids)
+        if best[0] is None or ids > best[0][0]:
+            best[0] = (ids, kinds, list(n.h.used)[-3:], sval(n.o.status))
+
+    def continue_with(n, sends, path, kinds, kind):
+        while len(n.h.used) < ph["ids"]:
+            r = run_cycle(n, sends, path, kind)
+            if r is None:
+                break
+            n, sends, path = r
+            kinds = kinds + (kind,)
+        finish(n, path, kinds)
+
+    def prefix(n, sends, path, kinds):
+        if len(kinds) >= ph["prefix"]:
+            for kind in CYCLE_KINDS:
+                continue_with(n, sends, path, kinds, kind)
+            return
+        for kind in (CYCLE_KINDS if kinds else (first,)):
+            r = run_cycle(n, sends, path, kind)
+            if r is None:
+                finish(n, path, kinds + (kind + "!",))
+                continue
+            prefix(r[0], r[1], r[2], kinds + (kind,))
+
+    n = initial(env)
+    path = []
+    sends = judge(n, path)
+    for ev in SETUP:
+        if sends is None:
+            break
+        r = step(n, ev, env)
+        if r is None or r[0] is None or r[1]:
+            sends = None
+            break
+        n = r[0]
+        path = path + [ev]
+        stats["transitions"] += 1
+        sends = judge(n, path)
+    if sends is not None:
+        prefix(n, sends, path, ())
+    samples = []
+    if best[0] is not None:
+        samples.append({"phase": ph["name"], "root": env["root"], "cfg": env["cfg"], "cycles": list(best[0][1]),
+                        "ids_drawn": best[0][0], "last_ids": best[0][2], "order_status": best[0][3]})
+    return {"stats": stats, "viols": list(viols.values()), "outcomes": sorted(outcomes),
+            "nontrivial": len(nontrivial), "samples": samples}
+
+
 # --------------------------------------------------------------------------- entry points
 def run(ctx):
     phases = TIERS[ctx.tier]
@@ -672,6 +823,12 @@ def run(ctx):
     PARAMS.update(phases=phases, pres=pres)
     items = []
     for phase_i in range(len(phases)):
+        if phases[phase_i].get("kind") == "chain":
+            for cfg_i in phases[phase_i]["cfgs"]:
+                for root_i in range(len(ROOTS), len(ALL_ROOTS)):
+                    for first in CYCLE_KINDS:
+                        items.append((len(items), phase_i, root_i, cfg_i, first))
+            continue
         for cfg_i in range(len(CFGS)):
             for root_i in range(len(ROOTS)):
                 items.append((len(items), phase_i, root_i, cfg_i))
@@ -682,10 +839,17 @@ def run(ctx):
                 "channels; states merged on (order attributes, exchange state, channels, bookkeeping); a path stops "
                 "at its first violating state; one BFS per phase (wide: any number of reports in flight, shallow; "
                 "deep: bounded number of reports in flight, more steps and requests) x ClOrdID root x quantity "
-                "configuration; 'states' adds up the distinct states of each BFS. Non-trivial = distinct "
+                "configuration; plus a long-chain phase on ONE order for roots containing '--' and digits: after "
+                "new/ack, request/answer cycles {replace+Replaced, replace+reject, cancel+cancel-reject} x {plain, "
+                "partial fill between request and answer}, exhaustive over all sequences of cycle kinds up to the "
+                "phase's prefix length, then from each such sequence ONE representative continuation per cycle kind "
+                "(that kind repeated) until the order has drawn 13 (thorough 14) ClOrdIDs, the full per-state oracle "
+                "(root / freshness / OrigClOrdID / convergence) at every step; "
+                "'states' adds up the distinct states of each BFS / chain item. Non-trivial = distinct "
                 "quiescent (order, exchange) states reached after at least one cancel/replace request.")
     ctx.bounds = {"phases": [dict(p) for p in phases],
-                  "roots": [r for r, _ in ROOTS], "quantity_configs": [list(c) for c in CFGS],
+                  "roots": [r for r, _ in ROOTS], "chain_roots": [r for r, _ in CHAIN_ROOTS],
+                  "chain_cycle_kinds": list(CYCLE_KINDS), "quantity_configs": [list(c) for c in CFGS],
                   "orders": 1}
     res = ctx.pmap(explore, items, chunk=1)
     best = {}
@@ -694,7 +858,9 @@ def run(ctx):
         ctx.count(states=s["states"], transitions=s["transitions"], traces=s["real_calls"],
                   evaluations=s["states"], quiescent_states=s["quiescent"],
                   violating_states=s["violating_states"], states_at_depth_bound=s["frontier_cut"],
-                  probes_beyond_request_cap=s["req_cap_probes"], nontrivial=r["nontrivial"])
+                  probes_beyond_request_cap=s["req_cap_probes"], nontrivial=r["nontrivial"],
+                  chains=s.get("chains", 0))
+        ctx.bounds["max_clordids_per_order"] = max(ctx.bounds.get("max_clordids_per_order", 0), s.get("max_ids", 0))
         for oc in r["outcomes"]:
             ctx.outcomes.add(tuple(oc))
         for x in r["viols"]:
@@ -706,7 +872,11 @@ def run(ctx):
                 keep["count"] += other["count"]
                 best[x["signature"]] = keep
     # a few real cases: deepest clean quiescent state with all requests used, different roots / phases
-    for r in sorted((r for r in res if r["samples"]), key=lambda r: -len(r["samples"][0]["path"]))[:4]:
+    bfs = [r for r in res if r["samples"] and "path" in r["samples"][0]]
+    for r in sorted(bfs, key=lambda r: -len(r["samples"][0]["path"]))[:4]:
+        ctx.sample(r["samples"][0])
+    chains = [r for r in res if r["samples"] and "cycles" in r["samples"][0]]
+    for r in sorted(chains, key=lambda r: -r["samples"][0]["ids_drawn"])[:2]:
         ctx.sample(r["samples"][0])
     out = []
     for sig in sorted(best):
@@ -733,7 +903,7 @@ def run(ctx):
 
 def replay(ctx, rep):
     pres = rep["pres"]
-    root_i = [r for r, _ in ROOTS].index(rep["root"])
+    root_i = [r for r, _ in ALL_ROOTS].index(rep["root"])
     cfg_i = [c[0] for c in CFGS].index(rep["cfg"])
     env = make_env(root_i, cfg_i, pres)
     n = initial(env)
